@@ -61,24 +61,53 @@ type refillCase struct {
 	A     int    `json:"a"`
 	B     int    `json:"b"`
 	Order string `json:"order"` // "binary(A),json(B)" | "json(A),binary(B)"
+	// Mut, when set, makes B the header A with this one operator applied (B index == A index)
+	Mut string `json:"mut,omitempty"`
 }
 
-// runRefill: an object filled from one encoding of A and then from the other encoding of B must be B.
-func runRefill(ch *chain, restrict *refillCase, report func(sig, what string, replay any)) (cases int64, validateDiffers int64) {
+var refillMutations = []string{"dah.row[0].flip0", "dah.col.append-new", "raw.AppHash.flip0", "raw.DataHash.flip0", "sig[0].flip0", "vals.repower(0,+1)", "vals.priority(0)+1", "commit.Round+1"}
+
+// runRefill: an object filled from one encoding of A and then from the other encoding of B must be
+// exactly what B's encoding decodes to in a fresh object: same Validate verdict, Hash, Height, fields and
+// MarshalBinary bytes. B is an honest neighbour of A, or A with one field changed (so that a stale part of
+// A that survives the second decode is visible as a wrongly accepted or wrongly rejected header).
+func runRefill(ch *chain, restrict *refillCase, report func(sig, what string, replay any)) (cases int64, outcomes map[string]int64) {
+	outcomes = map[string]int64{}
+	type second struct {
+		b   int
+		mut string
+		h   *EH
+	}
 	for a := range ch.honest {
+		var seconds []second
 		for _, b := range neighbours(ch, a) {
+			seconds = append(seconds, second{b, "", cloneEH(ch.honest[b])})
+		}
+		byName := map[string]op{}
+		for _, o := range primaries(&mctx{ch: ch, idx: a, nbs: neighbours(ch, a)}) {
+			byName[o.name] = o
+		}
+		for _, m := range refillMutations {
+			if o, ok := byName[m]; ok {
+				if h, ok := applyOps(ch.honest[a], o); ok {
+					seconds = append(seconds, second{a, m, h})
+				}
+			}
+		}
+		for _, sec := range seconds {
 			for _, order := range []string{"binary(A),json(B)", "json(A),binary(B)"} {
-				rc := refillCase{ch.cfg.Name, a, b, order}
+				rc := refillCase{ch.cfg.Name, a, sec.b, order, sec.mut}
 				if restrict != nil && *restrict != rc {
 					continue
 				}
-				A, B := ch.honest[a], ch.honest[b]
+				A := ch.honest[a]
 				binA, _ := encBinary(cloneEH(A))
 				jsA, _ := encJSON(cloneEH(A))
-				binB, _ := encBinary(cloneEH(B))
-				jsB, _ := encJSON(cloneEH(B))
+				var encB []byte
+				var errB error
+				fresh := new(EH)
 				obj := new(EH)
-				var e1, e2 error
+				var e1, e2, ef error
 				func() {
 					defer func() {
 						if r := recover(); r != nil {
@@ -86,32 +115,62 @@ func runRefill(ch *chain, restrict *refillCase, report func(sig, what string, re
 						}
 					}()
 					if order == "binary(A),json(B)" {
+						encB, errB = encJSON(sec.h)
+						if errB != nil {
+							return
+						}
+						ef = fresh.UnmarshalJSON(encB)
 						e1 = obj.UnmarshalBinary(binA)
-						e2 = obj.UnmarshalJSON(jsB)
+						e2 = obj.UnmarshalJSON(encB)
 					} else {
+						encB, errB = encBinary(sec.h)
+						if errB != nil {
+							return
+						}
+						ef = fresh.UnmarshalBinary(encB)
 						e1 = obj.UnmarshalJSON(jsA)
-						e2 = obj.UnmarshalBinary(binB)
+						e2 = obj.UnmarshalBinary(encB)
 					}
 				}()
+				if errB != nil {
+					continue // B has no such encoding
+				}
 				cases++
-				if e1 != nil || e2 != nil {
-					report("C16/reencode/refill/honest-encoding-rejected", fmt.Sprintf("%+v: decoding honest encodings failed: %v / %v", rc, e1, e2), map[string]any{"refill": rc, "tier": curTier})
+				art := map[string]any{"refill": rc, "tier": curTier}
+				name := fmt.Sprintf("chain %s, %s with A=h%d, B=h%d", ch.cfg.Name, order, a, sec.b)
+				if sec.mut != "" {
+					name += " after " + sec.mut
+				}
+				if e1 != nil {
+					report("C16/reencode/refill/honest-encoding-rejected", fmt.Sprintf("%s: decoding the honest encoding of A failed: %v", name, e1), art)
 					continue
 				}
-				got, err := encBinary(obj)
-				gh, _ := safeHash(obj)
-				if err != nil || !bytes.Equal(got, binB) || !bytes.Equal(gh, B.Hash()) || obj.Height() != B.Height() {
-					report("C16/reencode/refill/object-keeps-earlier-encoding",
-						fmt.Sprintf("chain %s, order %s with A=h%d B=h%d: afterwards the object has Height %d and Hash %X (B: %d, %X) but MarshalBinary gives bytes equal to B's: %v, equal to A's: %v (err %v)",
-							ch.cfg.Name, order, a, b, obj.Height(), gh, B.Height(), []byte(B.Hash()), bytes.Equal(got, binB), bytes.Equal(got, binA), err),
-						map[string]any{"refill": rc, "tier": curTier})
+				if (ef == nil) != (e2 == nil) {
+					report("C16/reencode/refill/verdict-differs-from-fresh-decode",
+						fmt.Sprintf("%s: the second decode into the used object says %v, into a fresh object %v", name, e2, ef), art)
+					continue
 				}
-				// observation only (memoised DAH hash / voting power inside re-used part objects belong to the dependency)
-				if runValidate(obj).ok != runValidate(wireCopy(B)).ok {
-					validateDiffers++
+				if ef != nil {
+					outcomes["second encoding rejected by the decoder (both)"]++
+					continue
+				}
+				vo, vf := runValidate(obj), runValidate(fresh)
+				outcomes["fresh:"+vf.class]++
+				if vo.ok != vf.ok {
+					report("C16/reencode/refill/verdict-differs-from-fresh-decode",
+						fmt.Sprintf("%s: Validate() of the re-filled object: %s (%s); of the same encoding decoded into a fresh object: %s (%s)", name, vo.class, vo.err, vf.class, vf.err), art)
+				}
+				ho, _ := safeHash(obj)
+				hf, _ := safeHash(fresh)
+				bo, erro := encBinary(obj)
+				bf, errf := encBinary(fresh)
+				if !bytes.Equal(ho, hf) || obj.Height() != fresh.Height() || fingerprint(obj) != fingerprint(fresh) || (erro == nil) != (errf == nil) || !bytes.Equal(bo, bf) {
+					report("C16/reencode/refill/object-keeps-earlier-encoding",
+						fmt.Sprintf("%s: the re-filled object has Height %d, Hash %X; the fresh decode Height %d, Hash %X; fields equal: %v; MarshalBinary equal: %v (equal to A's bytes: %v)",
+							name, obj.Height(), ho, fresh.Height(), hf, fingerprint(obj) == fingerprint(fresh), bytes.Equal(bo, bf), bytes.Equal(bo, binA)), art)
 				}
 			}
 		}
 	}
-	return cases, validateDiffers
+	return cases, outcomes
 }
